@@ -219,7 +219,9 @@ func runC18(c *fw.Ctx) {
 					for i := range l.Archs {
 						ids = append(ids, i)
 					}
-					vw := [][2]int64{{0, 0}, {now - r0, 0}, {now - 3, now - 1}, {now - rmax - 5, now - rmax + 1}, {now - 1, now + 5}, {now - 2, now - 2}, {now + 2, now + 5}, {now + 1, now + 1}}
+					vw := [][2]int64{{0, 0}, {now - r0, 0}, {now - 3, now - 1}, {now - rmax - 5, now - rmax + 1}, {now - 1, now + 5}, {now - 2, now - 2}, {now + 2, now + 5}, {now + 1, now + 1},
+						// windows that END exactly on an archive's retention edge: the oldest slot still kept is inside
+						{now - r0 - 3, now - r0}, {now - rmax - 2, now - rmax}}
 					rw := [][2]int64{{0, 0}, {now - 3, now - 1}, {now - rmax - int64(l.Archs[0].Step), now - 2}, {1, 0}}
 					for _, id := range ids {
 						for wi, w := range vw {
